@@ -18,6 +18,7 @@ package multiapp
 
 import (
 	"context"
+	"encoding/binary"
 	"errors"
 	"fmt"
 	"io"
@@ -85,12 +86,48 @@ func (d *DefaultMultiFileAppendableHooks) OpenInitialAppendable(opts *Options, s
 		filename = appendableName(appendableID(0, opts.fileSize), opts.fileExt)
 	}
 
+	if !opts.readOnly && hasIncompleteHeader(filepath.Join(d.path, filename)) {
+		// a crash while the last file was being created leaves it without
+		// a complete header, thus without any data: it is created again
+		err = os.Remove(filepath.Join(d.path, filename))
+		if err != nil {
+			return nil, 0, err
+		}
+	}
+
 	app, err = d.OpenAppendable(singleAppOpts, filename, true)
 	if err != nil {
 		return nil, 0, err
 	}
 
 	return app, appID, nil
+}
+
+// hasIncompleteHeader tells if the file is shorter than the header it declares
+func hasIncompleteHeader(name string) bool {
+	f, err := os.Open(name)
+	if err != nil {
+		return false
+	}
+	defer f.Close()
+
+	finfo, err := f.Stat()
+	if err != nil || finfo.IsDir() {
+		return false
+	}
+
+	var mLenBs [4]byte
+
+	if finfo.Size() < int64(len(mLenBs)) {
+		return true
+	}
+
+	_, err = io.ReadFull(f, mLenBs[:])
+	if err != nil {
+		return false
+	}
+
+	return finfo.Size() < int64(len(mLenBs))+int64(binary.BigEndian.Uint32(mLenBs[:]))
 }
 
 func (d *DefaultMultiFileAppendableHooks) OpenAppendable(options *singleapp.Options, appname string, needsWriteAccess bool) (appendable.Appendable, error) {
